@@ -136,7 +136,7 @@ let cause_str = function
 
 let mk_opts flags limit =
   { o_neg = flags.[0] = '1'; o_allow = flags.[1] = '1'; o_ensure = flags.[2] = '1'; o_esc = flags.[3] = '1';
-    o_limit = z_of_int limit; o_nullsz = None }
+    o_limit = z_of_int limit; o_stale = []; o_nullsz = None }
 
 let escapes = ["\\u003c"; "\\u003e"; "\\u0026"; "\\u2028"; "\\u2029"]
 
@@ -679,24 +679,12 @@ let judge_cli f =
   let exit_ = int_of_string (get f "exit") in
   let stdout_ = unhex (get f "stdout") in
   let stderr_nonempty = get f "stderr" = "1" in
-  let o = { o_neg = true; o_allow = false; o_ensure = false; o_esc = true; o_limit = Z0; o_nullsz = None } in
-  (* the fold: every file must be readable and decode (all files are read first), then apply in order *)
-  let rec decode_all fs acc = match fs with
-    | [] -> Some (List.rev acc)
-    | fl :: r ->
-      (match String.index_opt fl ':' with
-       | Some i when String.sub fl 0 i = "file" ->
-         (match api_decode (hexb (String.sub fl (i+1) (String.length fl - i - 1))) with
-          | Some ops -> decode_all r (ops :: acc)
-          | None -> None)
-       | _ -> None) in
-  let expected =
-    match decode_all files [] with
-    | None -> None
-    | Some patches ->
-      List.fold_left (fun cur ops -> match cur with
-          | None -> None
-          | Some d -> (match api_apply o [] ops d with ROut b -> Some b | _ -> None)) (Some (bytes_of_string stdin_)) patches in
+  (* the model of the command (Cli.cli_run, extracted): Some out / None *)
+  let pfiles = List.map (fun fl ->
+      match String.index_opt fl ':' with
+      | Some i when String.sub fl 0 i = "file" -> PFile (hexb (String.sub fl (i+1) (String.length fl - i - 1)))
+      | _ -> PUnreadable) files in
+  let expected = cli_run pfiles (bytes_of_string stdin_) in
   let c20 = match expected with
     | Some b ->
       if exit_ <> 0 then F "exit status non-zero where every patch applies"
